@@ -96,9 +96,17 @@ def load_known_findings(pid):
     return [e for e in data.get('findings', []) if e.get('property') == pid]
 
 
-def match_known(entry_list, ob_name, label):
+def match_known(entry_list, ob_name, label, model=None):
+    """an open entry matches a replayed violation of the same obligation (and label, when the entry gives
+    one); entries with a `models` list only match those specific failing inputs, so that a different
+    input failing in the same obligation is still reported as a VIOLATION"""
     for e in entry_list:
         if e.get('status') == 'open' and e.get('obligation') == ob_name and (not e.get('label') or e.get('label') == label):
+            if e.get('models') is not None:
+                keys = e.get('model_keys') or sorted({k for m in e['models'] for k in m})
+                proj = {k: (model or {}).get(k) for k in keys}
+                if proj not in [{k: m.get(k) for k in keys} for m in e['models']]:
+                    continue
             return e
     return None
 
@@ -236,7 +244,7 @@ def run_check(pid, tier, modname, stub_modules, level_text, assumptions, bounds,
         if not fails:
             inconclusive.append(f'{obn}/{label}: solver counterexample {model} did not reproduce on the real code ({detail})')
             continue
-        kf = match_known(known, obn, label)
+        kf = match_known(known, obn, label, model)
         if kf is not None:
             known_hits.append((kf, obn, label, fails[0]))
             continue
@@ -244,8 +252,12 @@ def run_check(pid, tier, modname, stub_modules, level_text, assumptions, bounds,
         json.dump({'property': pid, 'obligation': obn, 'label': label, 'model': model, 'failure': fails[:3], 'found_by': source}, open(path, 'w'), indent=1, default=str)
         confirmed.append((obn, label, fails[0], path))
 
+    seen_kf = {}
     for kf, obn, label, f in known_hits:
-        print(f"KNOWN-FINDING: property={pid} {kf.get('what', obn + '/' + label)}")
+        key = kf.get('what', obn + '/' + label)
+        seen_kf[key] = seen_kf.get(key, 0) + 1
+    for key, cnt in seen_kf.items():
+        print(f"KNOWN-FINDING: property={pid} {key}" + (f" [{cnt} failing inputs, all listed]" if cnt > 1 else ''))
     for obn, label, f, path in confirmed:
         print(f'  violation in {obn}: {f}')
         print(f'VIOLATION property={pid} replay={path}')
